@@ -1176,9 +1176,11 @@ func Abolish(vm *VM, pi Term, k Cont, env *Env) *Promise {
 				if !ok {
 					return k(env) // There's no such procedure: nothing to abolish.
 				}
-				if u, ok := p.(*userDefined); !ok || !u.dynamic {
+				u, ok := p.(*userDefined)
+				if !ok || !u.dynamic {
 					return Error(permissionError(operationModify, permissionTypeStaticProcedure, key.Term(), env))
 				}
+				u.clauses = nil // An open retract/1 holding the procedure finds its clauses gone.
 				delete(vm.procedures, key)
 				return k(env)
 			default:
